@@ -5,6 +5,7 @@ Driver for C02.  `geomv_c02 judge` reads lines carrying the implementation's ans
 
   grid <tag> <lo> <hi> <z> <polygonal> => <digits>   every point (i/2, j/2), lo ≤ i, j ≤ hi (row-major,
                                                      y outer), status digit 0/1/2 per point
+  sgrid <tag> <lo> <hi> <ex> <polygonal> => <digits> the same grid scaled by 2^ex (polygon already scaled)
   pt <tag> <xhex> <yhex> <polygonal>   => <digit>    one float point (exact dyadic value is judged)
   recv <tag> <geom> | <polygonal>      => <digit>    MultiPoint/LineString/MultiLineString/Polygon.Within
 
@@ -48,6 +49,12 @@ def specDigit (v : Spec.Verdict) : Char := Char.ofNat (48 + v.code)
 def showRat (q : Rat) : String := if q.den = 1 then toString q.num else s!"{q.num}/{q.den}"
 def showPt (p : Pt Rat) : String := s!"({showRat p.x},{showRat p.y})"
 
+/-- `2^ex` as a rational -/
+def pow2 (ex : Int) : Rat := if ex ≥ 0 then ((2 ^ ex.toNat : Nat) : Rat) else mkRat 1 (2 ^ (-ex).toNat)
+
+def scalePts (ex : Int) (ps : List (Pt Rat)) : List (Pt Rat) :=
+  if ex = 0 then ps else let k := pow2 ex; ps.map fun p => ⟨p.x * k, p.y * k⟩
+
 def gridPoints (lo hi : Int) : List (Pt Rat) :=
   let n := (hi - lo + 1).toNat
   (List.range n).flatMap fun (j : Nat) => (List.range n).map fun (i : Nat) =>
@@ -61,9 +68,20 @@ def firstBad (pts : List (Pt Rat)) (impl : List Char) (want : Pt Rat → Char) :
   | p :: ps, c :: cs => let w := want p; if c ≠ w then some (p, c, w) else firstBad ps cs want
   | _, _ => none
 
-def judgeGrid (tag : String) (lo hi : Int) (pg : Polygonal) (rhs : Tok) : String :=
+/-- the implementation stage asks every query twice against three slice layouts of the same polygon and
+compares the argument with a snapshot: `Within` is a function of the point and the polygon -/
+def stability (cls : String) (rhs : Tok) : Option String :=
+  match rhs with
+  | "argument-modified" :: rest => some s!"SPEC {cls} argument-modified {" ".intercalate rest}"
+  | _ :: "unstable" :: rest => some s!"SPEC {cls} answer-depends-on-slice-layout-or-call-count {" ".intercalate rest}"
+  | _ => none
+
+def judgeGrid (tag : String) (lo hi ex : Int) (pg : Polygonal) (rhs : Tok) : String :=
   let cls := s!"grid-{tag}-{shape pg}"
-  let pts := gridPoints lo hi
+  let pts := scalePts ex (gridPoints lo hi)
+  match stability cls rhs with
+  | some v => v
+  | none =>
   match rhs with
   | [digits] =>
     let impl := digits.toList
@@ -82,6 +100,9 @@ def judgeGrid (tag : String) (lo hi : Int) (pg : Polygonal) (rhs : Tok) : String
 
 def judgePt (tag : String) (p : Pt Rat) (pg : Polygonal) (rhs : Tok) : String :=
   let cls := s!"pt-{tag}-{shape pg}"
+  match stability cls rhs with
+  | some v => v
+  | none =>
   match rhs with
   | [d] =>
     let sp := specDigit (Spec.withinSpec p (specPolys pg))
@@ -114,6 +135,9 @@ def judgeRecv (tag : String) (g : BGeom) (pg : Polygonal) (rhs : Tok) : String :
         | .multiLineString ls => multiLineWithin ((ptssRat ls).getD []) pg
         | .polygon rs => polygonWithin ((ptssRat rs).getD []) pg
         | _ => .error .indexOutOfRange
+      match stability cls rhs with
+      | some v => v
+      | none =>
       match rhs with
       | [d] =>
         -- the property fixes when the answer is Outside; Inside vs OnEdge is the model's business
@@ -129,9 +153,16 @@ def judgeLine (line : String) : String :=
     match parseInt lo, parseInt hi, Proto.pGeom 4 gt with
     | some lo, some hi, some (g, _) =>
       match polygonalOf g with
-      | some pg => judgeGrid tag lo hi pg rhs
+      | some pg => judgeGrid tag lo hi 0 pg rhs
       | none => "OK skipped-nonfinite"
     | _, _, _ => "BAD parse"
+  | "sgrid" :: tag :: lo :: hi :: ex :: gt =>
+    match parseInt lo, parseInt hi, parseInt ex, Proto.pGeom 4 gt with
+    | some lo, some hi, some ex, some (g, _) =>
+      match polygonalOf g with
+      | some pg => judgeGrid tag lo hi ex pg rhs
+      | none => "OK skipped-nonfinite"
+    | _, _, _, _ => "BAD parse"
   | "pt" :: tag :: x :: y :: gt =>
     match parseU64 x, parseU64 y, Proto.pGeom 4 gt with
     | some x, some y, some (g, _) =>
